@@ -1,4 +1,5 @@
 import GrinVerif.Model.ChainBodyOrder
+import GrinVerif.Model.ChainBodyTags
 import GrinVerif.Gen.PipeShapeCore
 import GrinVerif.Props.XlateShapeLib
 /-! The order of the stateless body checks (`Model/ChainBodyOrder.lean`): the fault `withBodyOrder`
@@ -67,6 +68,115 @@ theorem withBodyOrder_id (b : Blk) (h : bodyFaults b = []) : b.withBodyOrder = b
   unfold Blk.withBodyOrder
   rw [h]
   rfl
+
+/-! ### the ordered block is answered with the chosen error (structured tags, `Model/ChainBodyTags.lean`) -/
+
+theorem firstBody_none_of_no_body (ts : List STag) (h : ∀ t ∈ ts, t.isBody = false) : firstBody ts = none := by
+  induction ts with
+  | nil => rfl
+  | cons t ts ih =>
+    cases t with
+    | body e => have := h (.body e) (by simp); simp [STag.isBody] at this
+    | ksum e => exact ih (fun t ht => h t (List.mem_cons_of_mem _ ht))
+    | other r => exact ih (fun t ht => h t (List.mem_cons_of_mem _ ht))
+
+theorem firstBody_ne_none_of_mem (ts : List STag) (e : Err) (h : STag.body e ∈ ts) : firstBody ts ≠ none := by
+  induction ts with
+  | nil => cases h
+  | cons a as ih =>
+    cases a with
+    | body x => simp [firstBody]
+    | ksum x =>
+      rcases List.mem_cons.mp h with h | h
+      · cases h
+      · simpa [firstBody] using ih h
+    | other x =>
+      rcases List.mem_cons.mp h with h | h
+      · cases h
+      · simpa [firstBody] using ih h
+
+/-- **`validateBody (withBodyOrder b)` = the chosen error**: whenever the block has a body-stage
+fault, the ordered block is refused with the error of the fault `firstFault` chose - by
+`firstFault_min` one of the least stage in the code's order -/
+theorem validateBodyS_ordered (p : Params) (outs : List OutDef) (b : Blk) (ts : List STag) (iv k : Nat)
+    (e : Err) (h : firstFault (bodyFaultsS b ts) = some (k, e)) :
+    validateBodyS p outs b (withBodyOrderS b ts) iv = some e := by
+  unfold withBodyOrderS validateBodyS
+  rw [h]
+  rfl
+
+/-- a block without body-stage fault keeps its tags, and then has no `body:` tag, no repeated
+commitment and no cut-through: `validateBodyS` goes on to the block-level checks exactly as before -/
+theorem validateBodyS_no_fault (b : Blk) (ts : List STag) (h : bodyFaultsS b ts = []) :
+    withBodyOrderS b ts = ts ∧ firstBody ts = none ∧ dupInBody b = false ∧ cutThroughViolation b = false := by
+  unfold bodyFaultsS at h
+  have h1 := List.append_eq_nil_iff.mp h
+  have h2 := List.append_eq_nil_iff.mp h1.1
+  refine ⟨by unfold withBodyOrderS bodyFaultsS; rw [h]; rfl, ?_, ?_, ?_⟩
+  · apply firstBody_none_of_no_body
+    intro t ht
+    cases t with
+    | body e =>
+      have : (bodyStage e, e) ∈ ts.filterMap STag.bodyFault :=
+        List.mem_filterMap.mpr ⟨.body e, ht, rfl⟩
+      rw [h2.1] at this
+      cases this
+    | ksum e => rfl
+    | other r => rfl
+  · cases hd : dupInBody b with
+    | false => rfl
+    | true => rw [hd] at h2; simp at h2
+  · cases hc : cutThroughViolation b with
+    | false => rfl
+    | true => rw [hc] at h1; simp at h1
+
+/-- acceptance is untouched by the ordering: the ordered block passes iff the block passes -/
+theorem validateBodyS_ordered_none_iff (p : Params) (outs : List OutDef) (b : Blk) (ts : List STag) (iv : Nat) :
+    validateBodyS p outs b (withBodyOrderS b ts) iv = none ↔ validateBodyS p outs b ts iv = none := by
+  cases hf : firstFault (bodyFaultsS b ts) with
+  | some x =>
+    obtain ⟨k, e⟩ := x
+    rw [validateBodyS_ordered p outs b ts iv k e hf]
+    constructor
+    · intro h; cases h
+    · intro h
+      -- the block has a fault, so the unordered block is refused as well
+      exfalso
+      have hm := (firstFault_min _ _ hf).1
+      unfold bodyFaultsS at hm
+      unfold validateBodyS at h
+      rcases List.mem_append.mp hm with hm | hm
+      · rcases List.mem_append.mp hm with hm | hm
+        · obtain ⟨t, ht, hte⟩ := List.mem_filterMap.mp hm
+          cases t with
+          | body e' =>
+            have : firstBody ts ≠ none := firstBody_ne_none_of_mem ts e' ht
+            cases hb : firstBody ts with
+            | none => exact this hb
+            | some x => rw [hb] at h; cases h
+          | ksum e' => cases hte
+          | other r => cases hte
+        · cases hd : dupInBody b with
+          | false => rw [hd] at hm; simp at hm
+          | true =>
+            rw [hd] at h
+            cases hb : firstBody ts <;> rw [hb] at h <;> simp at h
+      · cases hc : cutThroughViolation b with
+        | false => rw [hc] at hm; simp at hm
+        | true =>
+          rw [hc] at h
+          cases hb : firstBody ts <;> rw [hb] at h <;> simp at h
+          split at h <;> simp at h
+  | none =>
+    have : withBodyOrderS b ts = ts := by unfold withBodyOrderS; rw [hf]
+    rw [this]
+
+/-- non-vacuity: a block that names one input twice and carries a (later-stage) signature fault is
+answered `Serialization` once ordered -/
+example : validateBodyS {} [] { id := 1, parent := some 0, h := 1, work := 1, ver := 1, ts := 1, ins := [4, 4], outs := [], kers := [], tags := [] }
+    (withBodyOrderS { id := 1, parent := some 0, h := 1, work := 1, ver := 1, ts := 1, ins := [4, 4], outs := [], kers := [], tags := [] }
+      [.other "kind:x", .ksum "Block:KernelSumMismatch"]) 0
+    = some "Block:Transaction:Serialization" := by decide
 
 /-- the stages of `bodyStage`, in its numbering -/
 def stageNames : List String :=
